@@ -707,7 +707,7 @@ pub fn run(ctx: &vcommon::Ctx) {
     rep.assume("number of slots of a field = ceil(size/32) with size from the documented memory layout (bool/u8 1 byte, other integers one word, u256/b256 32 bytes, str[N] padded to words, struct/tuple members and enum variants aligned to words, enum = tag word + largest variant)");
     rep.assume("explicit keys are generated so that the slot ranges of all fields are disjoint and do not wrap around 2^256 (that is the author's obligation for `in` keys)");
     rep.assume("default feature set: experimental dynamic_storage is off (32-byte slots)");
-    let plan = driver::Plan { contracts: ctx.cases(160, 5000), batch: ctx.tier.pick(10, 25), tape_len: 3000, salt: 12 };
+    let plan = driver::Plan { contracts: ctx.cases(160, 4000), batch: ctx.tier.pick(10, 25), tape_len: 3000, salt: 12 };
     let degraded = crate::driver::run(ctx, &rep, &C12, &plan);
     crate::driver::finish(&rep, degraded);
 }
